@@ -13,11 +13,16 @@ QUERIES = [
   q('log_cstr12', 'h_log_cstr12', defines=['NSTR=12'], unwind=16, byteloops=True, witness=False, bounds=COMMON + '; twelve variable-length C-string arguments (the size cache inline capacity)', what='no allocation with 12 cached sizes'),
   Q('log_cstr13_must_allocate', H, 'h_log_cstr12', defines=['NSTR=13'], forbid=FORBID, models=['m_throw.c'], libmodels=['m_string.c', 'm_env.c'], unwind=30, witness=False, byteloops=True, expect='must_fail',
     bounds='thirteen C-string arguments: one more than the size cache inline capacity', what='LIVENESS WITNESS of the allocation assertion: this query must FAIL (the 13th cached size allocates) - it shows the no-allocation assertion can fire'),
+  q('log_containers', 'h_log_containers', unwind=24, byteloops=True, timeout=280, bounds=COMMON + '; arguments vector<std::string> (a 19-char heap string and a short one), vector<int>, optional<int>, pair<int,std::string> built beforehand',
+    what='no allocation / no libfmt while encoding standard containers of strings (elements are not copied); reserved size == written'),
+  Q('log_map', H, 'h_log_map', forbid=FORBID, models=['m_throw.c'], libmodels=['m_string.c', 'm_env.c', 'm_stl.c'], unwind=4, unwindset=['vll_memcpy.0:24', 'vll_memset.0:24', 'vll_memmove.0:24', 'vll_memmove.1:24', 'memchr.0:24', 'strlen.0:24', '_ZN5quill2v96detail13InlinedVectorIjLm12EEC2Ev.0:14', 'h_log_map.0:24', 'h_log_map.1:24', 'h_log_map.2:24', 'h_log_map.3:24', 'h_log_map.4:24', '_ZNSt7__cxx1112basic_stringIcSt11char_traitsIcESaIcEE9_M_mutateEmmPKcm.0:24', '_ZNSt7__cxx1112basic_stringIcSt11char_traitsIcESaIcEE9_M_mutateEmmPKcm.1:24', '_ZNSt7__cxx1112basic_stringIcSt11char_traitsIcESaIcEE9_M_mutateEmmPKcm.2:24', '_ZNSt7__cxx1112basic_stringIcSt11char_traitsIcESaIcEE9_M_assignERKS4_.0:24', 'memcmp.0:24'], byteloops=True, timeout=280, witness=False,
+    bounds=COMMON + '; argument std::map<std::string,std::string> with one element (17-char key, 19-char value, bytes symbolic) built beforehand',
+    what='no allocation / no libfmt while encoding a map of strings; reserved size == written'),
   q('log_macros', 'h_log_macros', bounds=COMMON + '; LOG_INFO / LOG_DYNAMIC (any of 9 levels) / LOGV_ macro families expanded for real with an int argument',
     what='no allocation / no libfmt through the real macros; dynamic level encoded last and decoded equal'),
 ]
 BOUNDS = 'listed instantiations only; strings <= 5 bytes'
-OUTSIDE = 'first call of a thread (context creation), unbounded-queue growth, std containers/optional/pair/tuple codecs (quill/std/*), direct-format types, filesystem paths; allocation inside user copy constructors'
+OUTSIDE = 'first call of a thread (context creation), preallocate(), unbounded-queue growth, std codecs other than vector/optional/pair/map (set, tuple, chrono, ...), direct-format types, filesystem paths; allocation inside user copy constructors'
 ASSUMPTIONS = ['logger, thread context and queue laid out directly in their steady state (constructors are environment)', 'user clock returning a symbolic instant']
 MANIFEST = {
  'text': 'The solver shows, for the listed argument instantiations with all values/bytes/lengths/queue positions symbolic, that operator new (all variants) and every libfmt entry point are UNREACHABLE from the real LoggerImpl::log_statement on the steady-state path, by giving those functions assert(false) bodies; the 13-C-string variant is the liveness witness of the allocation assertion. Thread identity of formatting is structural: the only path to a formatter is the decoder pointer stored in the record.',
